@@ -357,6 +357,28 @@ def run(rep, tier):
         adv = [render(n) for n in synq.walk(cf.body) if n.get("k") == "binary" and n["op"] == "+=" and ".size(ty)" in render(n)]
         rep.ob("R1.5", "call: both parameter-record walks advance by sizes.size(ty)", len(adv) == 2 and len(set(adv)) == 1,
                f"{adv}", cf.loc())
+        # order inside each parameter-record loop: align the running offset for THIS parameter, access it there, then
+        # advance by its size (aligning after the advance, or with the previous parameter's alignment, misplaces every
+        # parameter that needs padding in front of it)
+        loops = []
+        for lp in (n for n in synq.walk(cf.body) if n.get("k") == "for"):
+            al_ = [m for m in synq.fn_calls(lp["body"], "align_to_arch")]
+            if al_:
+                loops.append((lp, al_))
+        rep.ob("R1.5", "call: two parameter-record loops (lower to memory / lift from memory)", len(loops) == 2, f"{len(loops)}", cf.loc())
+        for lp, al_ in loops:
+            acc = [m for m in synq.method_calls(lp["body"], ["write_to_memory", "read_from_memory"])]
+            adv_ = [n for n in synq.walk(lp["body"]) if n.get("k") == "binary" and n["op"] == "+=" and ".size(" in render(n)]
+            which = acc[0]["method"] if acc else "?"
+            pos = lambda n: (n["sp"][0], n["sp"][1])
+            ok = len(al_) == 1 and len(acc) == 1 and len(adv_) == 1 and pos(al_[0]) < pos(acc[0]) < pos(adv_[0])
+            # all three talk about the loop's own parameter type
+            tyvars = {b_["name"] for b_ in synq.walk(lp["pat"]) if b_.get("k") == "p_ident"}
+            same = ok and any(render(al_[0]["args"][1]).endswith(f".align({t})") and render(acc[0]["args"][0]) == t and
+                              render(adv_[0]["r"]).endswith(f".size({t})") for t in tyvars)
+            rep.ob("R1.5", f"call ({which} loop): offset is aligned for the parameter, then the parameter is accessed, then the offset advances by its size",
+                   ok and same, f"align at {[pos(x) for x in al_]}, access at {[pos(x) for x in acc]}, advance at {[pos(x) for x in adv_]}",
+                   cf.loc(lp))
     rep.guard("R1.5", "sibling expressions", r15)
 
     # ---------------- R1.6 discriminants / padding / casts
